@@ -327,6 +327,11 @@ func (w *World) verifyFunc(name string, con *Contract) (jr *JobResult) {
 		sc.goal = false
 		e.assume(e.evalBool(sc, r.Expr, r.Text))
 	}
+	for _, r := range con.Assumes {
+		sc.goal = false
+		e.assume(e.evalBool(sc, r.Expr, r.Text))
+		e.trusted["assumption stated on "+name+": "+r.Text] = true
+	}
 	for _, r := range con.Modifies {
 		sc.goal = false
 		lo, n := e.evalRegion(sc, r.Expr, r.Text)
